@@ -88,13 +88,23 @@ def content_histories(run):
             js = run.rng.sample(js, num)
         out += [("content%d" % me, c) for c in js]
     cases = []
-    for fam, c in out:
+    for k, (fam, c) in enumerate(out):
         texts = {"1": "\n".join(c["first"]) + "\n"}
-        ops = [{"op": "full", "uri": "u1"}]
         for i, st in enumerate(c["steps"]):
             texts[str(i + 2)] = "\n".join(st["lines"]) + "\n"
-            ops.append({"op": "edit", "uri": "u1", "text": i + 2, "what": st["edit"]})
-            ops.append({"op": "delta", "uri": "u1", "prev": "current"})
+        if k % 3 != 2:
+            # full, then per edit: didChange (two thirds of them sent as the smallest run of lines that differs) + delta
+            ops = [{"op": "full", "uri": "u1"}]
+            for i, st in enumerate(c["steps"]):
+                ops.append({"op": "edit", "uri": "u1", "text": i + 2, "what": st["edit"], "incr": k % 3 == 1})
+                ops.append({"op": "delta", "uri": "u1", "prev": "current"})
+        else:
+            # full, then ALL the edits as line changes without any full/delta request in between, then every line interval as
+            # a range request: whatever the server remembers about "what changed since the last full result" must cover them all
+            ops = [{"op": "full", "uri": "u1"}]
+            for i, st in enumerate(c["steps"]):
+                ops.append({"op": "edit", "uri": "u1", "text": i + 2, "what": st["edit"], "incr": True})
+            ops.append({"op": "range", "uri": "u1"})
         cases.append((fam, {"texts": texts, "ops": ops}))
     return cases
 
@@ -144,8 +154,7 @@ def main(args):
         run.count(vf.digest([h, tx if tx is not TEXTS else 0]), nt)
         for sig, what in evaluate(h, res):
             if tx is not TEXTS:
-                k = int(what.split()[1])
-                what += "  [document before the edit %r, after it %r]" % (tx.get(str(h[k - 1].get("text", 2) - 1)), tx.get(str(h[k - 1].get("text"))))
+                what += "  [documents in order %r]" % ([tx[str(i)] for i in range(1, len(tx) + 1)],)
             run.diverge(sig, what, {"family": fam, "history": h, "texts": tx}, res)
     ngeo = 0
     if not args.replay or hs[0][0] == "geometry":
